@@ -156,3 +156,55 @@ def cj_fixed(cj, name, default):
     if v is None:
         return default
     return eval_expr(G.expr_from_json(v), {})
+
+
+# -------------------------------------------------------------------------------------
+# EOS identities on the real implementation
+def eos_oracle(genfile, pfx, kind, gamma=None, bigGamma=None, spec=None, rt=None, n_quick=40, n_thorough=400, tol=1e-9):
+    """kind: 'cog' (P = Gamma rho T, e = Gamma T/(gamma-1), P=(gamma-1) rho e) or 'gammalaw'.
+    gamma, bigGamma: callables(params) (default: the parameter of that name)."""
+    def oracle(rng, tier, reasons):
+        cj = H.load_gen(genfile)[pfx]
+        dom = G.expr_from_json(cj['dom'])
+        fields = [(nm, G.expr_from_json(e)) for nm, e in cj['fields']]
+        n = n_thorough if tier == 'thorough' else n_quick
+        cases = []
+        tries = 0
+        while len(cases) < n and tries < 50 * n:
+            tries += 1
+            p = H.sample_params(rng, cj, spec)
+            r, t = rt(rng, p) if rt else (round(rng.uniform(0.05, 3.0), 5), round(rng.uniform(0.05, 2.0), 5))
+            env = {k: float(v) for k, v in p.items()}
+            env.update(r=r, t=t)
+            try:
+                if not eval_cond(dom, env) or not all(H.conds_hold(e, env) for nm, e in fields):
+                    continue
+            except (ZeroDivisionError, ValueError, OverflowError):
+                continue
+            cases.append({'module': cj['module'][:-3].replace('/', '.'), 'class': cj['class'], 'params': p, 'pts': [r], 't': t})
+        res = H.call_solvers(cases)
+        fails = []
+        for c, o in zip(cases, res):
+            if 'cols' not in o:
+                continue
+            col = {k: v[0] for k, v in o['cols'].items()}
+            p = c['params']
+            g = gamma(p) if gamma else p['gamma']
+            P, rho, e = col['pressure'], col['density'], col['specific_internal_energy']
+            checks = {'P=(gamma-1) rho e': (P, (g - 1) * rho * e)}
+            if kind == 'cog':
+                Gm = bigGamma(p) if bigGamma else p['Gamma']
+                T = col['temperature']
+                checks['P=Gamma rho T'] = (P, Gm * rho * T)
+                checks['e=Gamma T/(gamma-1)'] = (e, Gm * T / (g - 1))
+            bad = {}
+            for nm, (a, b) in checks.items():
+                if a != a or b != b:
+                    continue
+                if abs(a - b) > tol * max(abs(a), abs(b)) + 1e-300:
+                    bad[nm] = [a, b]
+            if bad:
+                fails.append({'solver': c['class'], 'module': c['module'], 'params': p, 'r': c['pts'][0], 't': c['t'],
+                              'returned': col, 'violated_identities': bad})
+        return fails
+    return oracle
